@@ -1,4 +1,4 @@
-"""C19 -- density-estimator intervals, moments and normalisation are self-consistent (GaussianKDE clauses only).
+"""C19 -- density-estimator intervals, moments and normalisation are self-consistent (both estimators).
 
 MC   : KdeExact.tla -- closed-form mean, variance, skewness and excess kurtosis of the Gaussian mixture for light-tailed histograms with
        integer mean, exact mass between two points and density at them (KdeInterval.tla).
@@ -6,17 +6,26 @@ S->C : moments() of the real estimator on the replicated histogram under affine 
        1e6 standard deviations from zero) against the closed form in units of the data's own scale; covariance between runs; mode.
 C->S : interval(f) ends are quantised to 1/1024 and handed back to the reference, which prints the mass between them and the densities at
        the ends.
-The UnimodalPdf clauses of C19 are NOT decided (quadrature / optimiser accuracy of a fitted curve: nothing exactly computable to model).
+C->S : PdfTable.tla -- both estimators fitted to the unimodal quantile samples enumerated by MC_PdfFamily.tla (hundreds to thousands of
+       points, scales 1e-6 .. 1e6, locations up to 2e4 standard deviations from zero) are tabulated on 256 cells of their own range;
+       TLC judges every table clause by clause (non-negative, cdf non-decreasing / from 0 to 1 / the integral of the density cell by cell
+       and cumulatively / the same one point at a time, total probability one, mode maximal, interval(f) holds f and has equal end
+       densities, reported moments are those of the tabulated estimator under the property's proviso); read-outs of the affine images
+       are compared with the unmapped ones (covariance clause; wide bands for UnimodalPdf, whose fit is not unique -- see pdftable.py).
 """
 from harness.core import Check
 from harness import kde as K
+from harness import pdftable
 
 
 def run(tier):
     ck = Check("C19", tier)
     ck.rule = "one case per (light-tailed integer-mean histogram, bandwidth, affine map); intervals: one per (histogram, bandwidth, fraction)"
-    ck.assumptions = ["GaussianKDE clauses only; UnimodalPdf clauses excluded (DESIGN section 5)",
+    ck.assumptions = ["closed-form clauses on GaussianKDE (lattice histograms); table clauses on both estimators (quantile samples of 8 unimodal shapes)",
+                      "UnimodalPdf covariance judged with wide bands (0.1 - 0.3 of the data's scale): its maximum-likelihood fit has several near-equal optima and which one Nelder-Mead finds changes when the data are moved",
+                      "moments of the estimated density: independent adaptive quadrature (scipy quad) of the estimator's own __call__, over its range and over the whole line; judged only if < 2e-4 of the probability lies outside the range",
                       "histograms whose end levels hold one sample each, so that < 1e-3 of the mass lies outside the estimator's integration range (the property's proviso)",
                       "tolerances: mean 5e-3 std, variance 1e-2 relative, skewness 2e-2, excess kurtosis 5e-2; interval mass 1e-2, end densities 5e-2 of the peak (the interval search's own stopping tolerance)"]
     K.moments_part(ck, tier)
+    pdftable.run_part(ck, tier)
     return ck.finish()
